@@ -55,6 +55,7 @@ def world_cases(draw):
     c["pull"] = draw(st.booleans())
     c["kills"] = draw(st.sampled_from([0, 0, 1, 2]))
     c["pauses"] = draw(st.lists(st.sampled_from(["pause", "resume", "pause2", "resume2"]), max_size=6))
+    c["close_one"] = c["nprod"] >= 2 and draw(st.booleans())
     n = draw(st.integers(40, 300))
     c["tape"] = draw(st.binary(min_size=n, max_size=n))
     return c
@@ -445,16 +446,33 @@ def run_world(c, res):
         conn = m0._connection
         blocked = conn is None or getattr(conn.transport, "producer_paused", False)
         for p in prods:
-            if isinstance(p, AppPush) and p.left > 0:
+            if isinstance(p, AppPush) and p.left > 0 and p not in closed_one:
                 if blocked and p.last == "resume" and conn is None:
                     V("pause-all", "no connection but an application push producer was last told to resume (history "
                       "%s)" % "".join(p.hist[-8:]), "producer-resumed-without-connection")
 
+    closed_one = []
+
     def extra(cs):
         out = []
+        # one application gives up early: it closes its subchannel while its producer is still registered and has
+        # data left (the other producers carry on and must keep getting their turns)
+        if c.get("close_one") and not closed_one and len(prods) >= 2 and isinstance(prods[0], AppPush) and \
+                len(prods[0].end.writes) >= 1 and prods[0].left > 0:
+            def give_up(cs2):
+                p0 = prods[0]
+                closed_one.append(p0)
+                p0.left = 0          # (a well-behaved application: it does not write after loseConnection())
+                p0.end.closed_locally = cs2.step
+                try:
+                    p0.end.transport.loseConnection()
+                except Exception as ex:
+                    V("raises", "loseConnection with a registered producer raised %r" % ex,
+                      "loseConnection-raises:%s" % type(ex).__name__, type(ex).__name__)
+            out.append((3, ("custom", give_up)))
         # a resumed push producer keeps producing on its own schedule: each burst is a scheduler event
         for p in prods:
-            if isinstance(p, AppPush) and p.left > 0 and p.last == "resume":
+            if isinstance(p, AppPush) and p.left > 0 and p.last == "resume" and p not in closed_one:
                 out.append((4, ("custom", lambda cs2, p=p: p.produce())))
         if pauses:
             accs = cs.accepted[(1, "p")]
@@ -496,16 +514,16 @@ def run_world(c, res):
         def after_settle(cs):
             after(cs)
             for p in prods:
-                if isinstance(p, AppPush) and p.left > 0 and p.last == "resume":
+                if isinstance(p, AppPush) and p.left > 0 and p.last == "resume" and p not in closed_one:
                     p.produce()
         case.flush_intents(after_step=after_settle)
         for _ in range(6):
             case.settles.append(case.settle(after_step=after_settle))
-            if not any(isinstance(p, AppPush) and p.left > 0 and p.last == "resume" for p in prods):
+            if not any(isinstance(p, AppPush) and p.left > 0 and p.last == "resume" and p not in closed_one for p in prods):
                 break
         if not bad and all(s in ("quiescent", "time") for s in case.settles):
             for p in prods:
-                if p.left > 0:
+                if p.left > 0 and p not in closed_one:
                     V("wakeup", "at quiescence with a writable connection a %s producer still has %d of 12 chunks "
                       "unsent (last signal %r, history %s)" % (type(p).__name__, p.left, p.last, "".join(p.hist[-8:])),
                       "lost-wakeup:%s" % type(p).__name__)
